@@ -489,3 +489,51 @@ def ephemeris_bounded(vc):
     m_1 = np.asarray(Moon.getPosition(jd - dt), dtype=float).reshape(3)
     sec = dt * 86400
     vc.ensure("B-C13-ephem.continuous", bool(max(np.linalg.norm(s1 - s0), np.linalg.norm(s0 - s_1)) <= 35.0 * sec + 1e-3 and max(np.linalg.norm(m1 - m0), np.linalg.norm(m0 - m_1)) <= 1.3 * sec + 1e-4))
+
+
+DYN = "resonaate.dynamics:"
+
+
+@obligation("C13", "configured", ensures=["O-C13-config.fields", "O-C13-config.third-bodies", "O-C13-config.factory"],
+            fns=[SP + "SpecialPerturbations.__init__", SP + "thirdBodyFactory", DYN + "dynamicsFactory"], mode="Z",
+            note="'each present exactly when configured': the propagator stores the configured degree and order (independently: a 4x2 field stays 4x2), coefficient tables of the configured model, the configured "
+                 "SRP / relativity switches, start date and area-to-mass term, and exactly the configured third bodies; the factory builds it for a spacecraft with the scenario's start date, geopotential and "
+                 "perturbation settings and the agent's own cross-section, mass and reflectivity")
+def configured(vc):
+    deg, order = vc.int("degree", 0, 80), vc.int("order", 0, 80)
+    srp, gr = vc.bool("srp"), vc.bool("gr")
+    loaded = []
+    vc.install(SP + "@loadGeopotentialCoefficients", lambda model: (loaded.append(model), ("C-of-" + str(model), "S-of-" + str(model)))[1])
+    geo = _NS(model="MODEL", degree=deg, order=order)
+    if vc.symbolic:
+        import resonaate.physics.bodies.third_body as tb
+        tbf = vc.fn(SP + "thirdBodyFactory")
+        pert = _NS(third_bodies=["moon", "Sun"], solar_radiation_pressure=srp, general_relativity=gr)
+        dyn = vc.new(SP + "SpecialPerturbations")
+        vc.fn(SP + "SpecialPerturbations.__init__")(dyn, "JD0", geo, pert, "RATIO", method="DOP853")
+    else:
+        import resonaate.dynamics.special_perturbations as spm
+        import resonaate.physics.bodies.third_body as tb
+        tbf = spm.thirdBodyFactory
+        pert = _NS(third_bodies=["moon", "Sun"], solar_radiation_pressure=srp, general_relativity=gr)
+        dyn = spm.SpecialPerturbations("JD0", geo, pert, "RATIO", method="DOP853")
+    vc.ensure("O-C13-config.fields", vc.And(dyn.degree is deg or vc.eq(dyn.degree, deg), dyn.order is order or vc.eq(dyn.order, order), dyn.init_julian_date == "JD0", dyn.sat_ratio == "RATIO",
+                                             dyn.use_srp is srp or dyn.use_srp == srp, dyn.use_gr is gr or dyn.use_gr == gr, dyn.c_nm == "C-of-MODEL", dyn.s_nm == "S-of-MODEL", loaded == ["MODEL"],
+                                             dyn._method == "DOP853", dyn.finite_thrust is None))
+    names = lambda d: sorted(k.__name__ for k in d)
+    vc.ensure("O-C13-config.third-bodies", names(dyn.third_bodies) == ["Moon", "Sun"] and names(tbf([])) == [] and names(tbf(["jupiter", "SATURN", "venus"])) == ["Jupiter", "Saturn", "Venus"]
+              and all(issubclass(k, tb.ThirdBody) for k in tbf(["sun", "moon", "jupiter", "saturn", "venus"])))
+    # the factory
+    import resonaate.scenario.config.platform_config as pc
+    made = []
+    vc.install(DYN + "@SpecialPerturbations", lambda *a, **k: (made.append((a, k)), "SP")[1])
+    vc.install(DYN + "@TwoBody", lambda **k: (made.append(("twobody", k)), "TB")[1])
+    vc.install(DYN + "@calcSatRatio", lambda a, m, r: ("RATIO", a, m, r))
+    plat = object.__new__(pc.SpacecraftConfig)
+    plat.__dict__.update(visual_cross_section=12.0, mass=345.0, reflectivity=0.3)
+    acfg = _NS(platform=plat, state=None)
+    clock = _NS(julian_date_start="JD-START", datetime_start="DT-START")
+    fac = vc.fn(DYN + "dynamicsFactory")
+    out1 = fac(acfg, _NS(propagation_model="Special_Perturbations", integration_method="RK45"), "GEO", "PERT", clock)
+    out2 = fac(acfg, _NS(propagation_model="two_body", integration_method="DOP853"), "GEO", "PERT", clock)
+    vc.ensure("O-C13-config.factory", out1 == "SP" and out2 == "TB" and made[0] == (("JD-START", "GEO", "PERT", ("RATIO", 12.0, 345.0, 0.3)), {"method": "RK45"}) and made[1] == ("twobody", {"method": "DOP853"}))
